@@ -47,6 +47,7 @@ def run(rep, tier):
             tracksites(rep, c, sfx, track)
             args(rep, c, sfx, track)
         polarity(rep, c, sfx)
+        reported(rep, c, sfx)
     backends(rep)
 
 
@@ -429,6 +430,82 @@ def polarity(rep, c, sfx):
                         "`!(.. &e ..)` are reported with the wrong polarity (dropped from `unexpected`, or added to "
                         "`expected` at a position where nothing reportable failed)"
                         % ("a positive" if pos else "a negative", init, got, w))
+
+
+def resolve_imm(n, lets, modes, depth=0):
+    """Follow immutable `let x = init` chains from a local path to its initializer."""
+    n = peel(n)
+    while depth < 8 and kind(n) == "Path" and n.get("res") == "local" and n["id"] in lets and not modes.get(n["id"]):
+        n = peel(lets[n["id"]][0])
+        depth += 1
+    return n
+
+
+def reported(rep, c, sfx):
+    r = rep.rule("C08.REPORTED" + sfx, 4,
+                 "Error::new_from_pos reports the position it is given: `variant` is the parameter, `location` is "
+                 "Pos(pos.pos()) and `line_col` is Pos(pos.line_col()) of the same Position parameter (through "
+                 "immutable lets only), and no function assigns or mutably borrows location / line_col afterwards")
+    fn = c.fn("pest::error::Error::new_from_pos")
+    if fn is None:
+        r.lost("Error::new_from_pos")
+        return
+    lets = hirq.lets(fn["body"])
+    modes = hirq.binding_modes(fn)
+    params = {p["name"]: p["id"] for p in fn["params"] if p.get("k") == "PBind"}
+    posids = [p["id"] for p in fn["params"] if p.get("k") == "PBind" and "position::Position" in p.get("ty", "")]
+    varids = [p["id"] for p in fn["params"] if p.get("k") == "PBind" and "ErrorVariant" in p.get("ty", "")]
+    if len(posids) != 1 or len(varids) != 1:
+        r.lost("new_from_pos(variant, pos) parameters")
+        return
+    lits = [n for n in walk(fn["body"]) if kind(n) == "Struct" and n.get("path") == "pest::error::Error"]
+    if not lits:
+        r.lost("the Error literal of new_from_pos")
+        return
+
+    def proj(e, ctor, meth):
+        e = resolve_imm(e, lets, modes)
+        if not (kind(e) == "Call" and callee(e) == ctor and len(e["args"]) == 1):
+            return "is not %s(..)" % ctor.split("::", 2)[-1]
+        a = resolve_imm(e["args"][0], lets, modes)
+        if not (kind(a) == "MethodCall" and a.get("path") == meth):
+            return "is not computed by %s" % meth.split("::", 2)[-1]
+        rc = peel(a["recv"])
+        while kind(rc) in ("AddrOf",):
+            rc = peel(rc["e"])
+        if not (kind(rc) == "Path" and rc.get("res") == "local" and rc["id"] == posids[0]):
+            return "is not taken from the `pos` parameter"
+        return None
+
+    for lit in lits:
+        f = {x["name"]: x["e"] for x in lit["fields"]}
+        for (name, ctor, meth) in (("location", "pest::error::InputLocation::Pos", "pest::position::Position::pos"),
+                                   ("line_col", "pest::error::LineColLocation::Pos", "pest::position::Position::line_col")):
+            r.instance("ctor:" + name, where(lit))
+            if name not in f:
+                r.violation("ctor:" + name, where(lit), "field %s is not set explicitly" % name)
+                continue
+            why = proj(f[name], ctor, meth)
+            if why:
+                r.violation("ctor:" + name, where(f[name]),
+                            "Error.%s %s: the reported %s is no longer the position the failure was recorded at "
+                            "(location and line_col describe different places)" % (name, why, name))
+        r.instance("ctor:variant", where(lit))
+        v = resolve_imm(f.get("variant", {}), lets, modes)
+        if not (kind(v) == "Path" and v.get("res") == "local" and v["id"] == varids[0]):
+            r.violation("ctor:variant", where(lit), "Error.variant is not the variant the caller passed")
+    n = 0
+    for g in c.bodies:
+        if g.get("exp") or "::tests::" in g["path"]:
+            continue
+        for fld in ("location", "line_col"):
+            for (x, how, parent) in hirq.mutating_field_accesses(g["body"], fld, "pest::error::Error"):
+                if g["path"] == fn["path"] or how.startswith("method:"):
+                    continue
+                n += 1
+                r.violation("write:%s:%s" % (g["path"].replace("pest::", ""), fld), where(x),
+                            "%s writes Error.%s after construction (%s)" % (g["path"], fld, how))
+    r.instance("writers-outside-ctor", "", "%d found" % n)
 
 
 def backends(rep):
